@@ -1125,3 +1125,192 @@ Section SpecBProofs.
     - intros x Hx. apply OK, classify_ok. exact (HE x Hx).
   Qed.
 End SpecBProofs.
+
+(** * First-failure verdicts over any pair of lookups (generalises Section Resolve), and the
+      resolution-time check with semver-aware lookups (the code after the proposed repair) *)
+Section FirstFailure.
+  Variable K : Type.
+  Variable promote : K -> K.
+  Variable sub : K -> K -> bool.
+  Variable d : discipline.
+  Variable w : tworld K.
+  Variable c : comp K.
+  Variable gi ge : str -> option K.
+  Hypothesis GI : implements d (wtable w) gi.
+  Hypothesis GE : implements d (c_exports c) ge.
+  Notation istep := (imp_step K promote sub).
+  Notation estep := (exp_step K promote sub).
+
+  Definition ff_verdict : rverdict :=
+    match scan (istep gi) (c_imports c) with
+    | Some e => RErr e
+    | None => match scan (estep ge) (tw_exports w) with
+              | Some e => RErr e
+              | None => ROk
+              end
+    end.
+
+  Lemma ff_imp_ok l : Forall (fun a => istep gi a = None) l <-> Forall (import_ok promote sub d w) l.
+  Proof. apply Forall_iff. intros a _. now apply imp_step_none. Qed.
+  Lemma ff_exp_ok l : Forall (fun a => estep ge a = None) l <-> Forall (export_ok promote sub d c) l.
+  Proof. apply Forall_iff. intros a _. now apply exp_step_none. Qed.
+
+  Lemma ff_ok_iff : ff_verdict = ROk <-> Conforms promote sub d w c.
+  Proof.
+    unfold ff_verdict, Conforms. rewrite <- ff_imp_ok, <- ff_exp_ok, <- !scan_none.
+    destruct (scan (istep gi) _); [split; [discriminate|intros [H _]; discriminate]|].
+    destruct (scan (estep ge) _); [split; [discriminate|intros [_ H]; discriminate]|]. tauto.
+  Qed.
+
+  Lemma ff_imports_first (P : str * K * bool -> Prop) e :
+    (forall i, istep gi i = Some e <-> P i) ->
+    (scan (istep gi) (c_imports c) = Some e <->
+     exists i, first_failing (import_ok promote sub d w) P (c_imports c) i).
+  Proof.
+    intros HP. rewrite scan_some. unfold first_failing. split.
+    - intros [pre [a [post [H [F Fa]]]]]. exists a, pre, post. rewrite <- ff_imp_ok, <- HP. auto.
+    - intros [a [pre [post [H [F Fa]]]]]. exists pre, a, post. rewrite ff_imp_ok, HP. auto.
+  Qed.
+
+  Lemma ff_exports_first (P : str * K -> Prop) e :
+    (forall x, estep ge x = Some e <-> P x) ->
+    (scan (estep ge) (tw_exports w) = Some e <->
+     exists x, first_failing (export_ok promote sub d c) P (tw_exports w) x).
+  Proof.
+    intros HP. rewrite scan_some. unfold first_failing. split.
+    - intros [pre [a [post [H [F Fa]]]]]. exists a, pre, post. rewrite <- ff_exp_ok, <- HP. auto.
+    - intros [a [pre [post [H [F Fa]]]]]. exists pre, a, post. rewrite ff_exp_ok, HP. auto.
+  Qed.
+
+  Lemma ff_imports_never e : scan (istep gi) (c_imports c) = Some e ->
+    (forall n, e <> MissingTargetExport n) /\ (forall n, e <> TargetMismatch EExport n).
+  Proof.
+    rewrite scan_some. intros [pre [a [post [_ [_ Fa]]]]].
+    destruct (imp_step_other K promote sub gi a) as [O1 O2]. split; intros n ->; [apply (O1 n)|apply (O2 n)]; auto.
+  Qed.
+  Lemma ff_exports_never e : scan (estep ge) (tw_exports w) = Some e ->
+    (forall n, e <> ImportNotInTarget n) /\ (forall n, e <> TargetMismatch EImport n).
+  Proof.
+    rewrite scan_some. intros [pre [a [post [_ [_ Fa]]]]].
+    destruct (exp_step_other K promote sub ge a) as [O1 O2]. split; intros n ->; [apply (O1 n)|apply (O2 n)]; auto.
+  Qed.
+
+  Lemma ff_import_not_in_target n :
+    ff_verdict = RErr (ImportNotInTarget n) <-> diag_import_not_in_target promote sub d w c n.
+  Proof.
+    unfold diag_import_not_in_target. rewrite <- ff_name.
+    rewrite <- (ff_imports_first _ (ImportNotInTarget n)) by (intros i; now apply imp_step_outside).
+    unfold ff_verdict. destruct (scan (istep gi) _) as [e|] eqn:E1.
+    - split; congruence.
+    - destruct (scan (estep ge) _) as [e|] eqn:E2; [|split; discriminate].
+      apply ff_exports_never in E2 as [O _]. split; [|discriminate]. intros H. injection H as ->. now destruct (O n).
+  Qed.
+
+  Lemma ff_import_mismatch n :
+    ff_verdict = RErr (TargetMismatch EImport n) <-> diag_import_mismatch promote sub d w c n.
+  Proof.
+    unfold diag_import_mismatch. rewrite <- ff_name.
+    rewrite <- (ff_imports_first _ (TargetMismatch EImport n)) by (intros i; now apply imp_step_mismatch).
+    unfold ff_verdict. destruct (scan (istep gi) _) as [e|] eqn:E1.
+    - split; congruence.
+    - destruct (scan (estep ge) _) as [e|] eqn:E2; [|split; discriminate].
+      apply ff_exports_never in E2 as [_ O]. split; [|discriminate]. intros H. injection H as ->. now destruct (O n).
+  Qed.
+
+  Lemma ff_missing_export n :
+    ff_verdict = RErr (MissingTargetExport n) <-> diag_missing_export promote sub d w c n.
+  Proof.
+    unfold diag_missing_export. rewrite <- ff_name, <- ff_imp_ok, <- scan_none.
+    rewrite <- (ff_exports_first _ (MissingTargetExport n)) by (intros i; now apply exp_step_missing).
+    unfold ff_verdict. destruct (scan (istep gi) _) as [e|] eqn:E1.
+    - apply ff_imports_never in E1 as [O _]. split.
+      + intros H. injection H as ->. now destruct (O n).
+      + intros [H _]. discriminate.
+    - destruct (scan (estep ge) _) as [e|] eqn:E2.
+      + split; [intros H; injection H as ->; auto | intros [_ H]; congruence].
+      + split; [discriminate | intros [_ H]; discriminate].
+  Qed.
+
+  Lemma ff_export_mismatch n :
+    ff_verdict = RErr (TargetMismatch EExport n) <-> diag_export_mismatch promote sub d w c n.
+  Proof.
+    unfold diag_export_mismatch. rewrite <- ff_name, <- ff_imp_ok, <- scan_none.
+    rewrite <- (ff_exports_first _ (TargetMismatch EExport n)) by (intros i; now apply exp_step_mismatch).
+    unfold ff_verdict. destruct (scan (istep gi) _) as [e|] eqn:E1.
+    - apply ff_imports_never in E1 as [_ O]. split.
+      + intros H. injection H as ->. now destruct (O n).
+      + intros [H _]. discriminate.
+    - destruct (scan (estep ge) _) as [e|] eqn:E2.
+      + split; [intros H; injection H as ->; auto | intros [_ H]; congruence].
+      + split; [discriminate | intros [_ H]; discriminate].
+  Qed.
+End FirstFailure.
+
+Section ResolveSemver.
+  Variable K : Type.
+  Variable promote : K -> K.
+  Variable sub : K -> K -> bool.
+
+  Lemma rs_imports_scan wi l : rs_imports promote sub wi l = scan (imp_step K promote sub (nm_get wi)) l.
+  Proof.
+    induction l as [|[[n k] b] l IH]; cbn; auto. unfold imp_step at 1. cbn.
+    destruct (nm_get wi n); auto. destruct (sub _ _); auto.
+  Qed.
+  Lemma rs_exports_scan ce l : rs_exports promote sub ce l = scan (exp_step K promote sub (nm_get ce)) l.
+  Proof.
+    induction l as [|[n e] l IH]; cbn; auto. unfold exp_step at 1. cbn.
+    destruct (nm_get ce n); auto. destruct (sub _ _); auto.
+  Qed.
+
+  (** the semver-aware resolution check is a first-failure verdict over the two semver lookups *)
+  Lemma resolve_sv_ff (w : tworld K) (c : comp K) :
+    exists wi ce, nm_fill nm_empty (wtable w) = Some wi /\ nm_fill nm_empty (c_exports c) = Some ce /\
+      resolve_target_sv promote sub w c = Some (ff_verdict K promote sub w c (nm_get wi) (nm_get ce)).
+  Proof.
+    destruct (nm_fill_total (wtable w)) as [wi [Fw _]]. destruct (nm_fill_total (c_exports c)) as [ce [Fc _]].
+    exists wi, ce. repeat split; auto.
+    unfold resolve_target_sv, all_imports, ff_verdict. fold (wtable w). rewrite Fw, Fc.
+    rewrite rs_imports_scan, rs_exports_scan.
+    destruct (scan _ (c_imports c)); auto. destruct (scan _ (tw_exports w)); auto.
+  Qed.
+
+  Section Pair.
+    Variable w : tworld K.
+    Variable c : comp K.
+    Hypothesis WF : wf_pair w c.
+
+    Theorem resolve_sv_spec :
+      exists v, resolve_target_sv promote sub w c = Some v /\
+        (v = ROk <-> Conforms promote sub Semver w c) /\
+        (forall n, v = RErr (ImportNotInTarget n) <-> diag_import_not_in_target promote sub Semver w c n) /\
+        (forall n, v = RErr (TargetMismatch EImport n) <-> diag_import_mismatch promote sub Semver w c n) /\
+        (forall n, v = RErr (MissingTargetExport n) <-> diag_missing_export promote sub Semver w c n) /\
+        (forall n, v = RErr (TargetMismatch EExport n) <-> diag_export_mismatch promote sub Semver w c n).
+    Proof.
+      destruct WF as [CW CE]. destruct (resolve_sv_ff w c) as [wi [ce [Fw [Fc E]]]].
+      pose proof (semver_implements _ _ CW Fw) as GI. pose proof (semver_implements _ _ CE Fc) as GE.
+      eexists. split; [exact E|]. split; [|split; [|split; [|split]]].
+      - now apply ff_ok_iff.
+      - intros n. now apply ff_import_not_in_target.
+      - intros n. now apply ff_import_mismatch.
+      - intros n. now apply ff_missing_export.
+      - intros n. now apply ff_export_mismatch.
+    Qed.
+
+    (** with semver-aware lookups on both sides the two verdicts are the same, for every pair *)
+    Theorem agree_sv :
+      exists v, resolve_target_sv promote sub w c = Some v /\ agree v (standalone_target promote sub w c).
+    Proof.
+      destruct resolve_sv_spec as [v [E [HO [H1 [H2 [H3 H4]]]]]]. exists v. split; auto.
+      destruct (standalone_report K promote sub w c WF) as [r [Er [R1 [R2 R3]]]].
+      pose proof (standalone_ok_iff K promote sub w c WF) as OK. unfold standalone_ok in OK.
+      rewrite Er in *. unfold agree. destruct v as [|e].
+      - apply OK, HO. reflexivity.
+      - destruct e as [n|[|] n|n].
+        + destruct (proj1 (H1 n) eq_refl) as [i [N F]]. apply ff_in in F as [Hi O]. apply R1. exists i. auto.
+        + destruct (proj1 (H2 n) eq_refl) as [i [N F]]. apply ff_in in F as [Hi O]. apply R3. left. exists i. auto.
+        + destruct (proj1 (H4 n) eq_refl) as [_ [x [N F]]]. apply ff_in in F as [Hx O]. apply R3. right. exists x. auto.
+        + destruct (proj1 (H3 n) eq_refl) as [_ [x [N F]]]. apply ff_in in F as [Hx O]. apply R2. exists x. auto.
+    Qed.
+  End Pair.
+End ResolveSemver.
